@@ -19,11 +19,15 @@ UintPool == IF MODE = "small" THEN { FromInt(n) : n \in 0..(2^W - 1) }
                       \cup UNION { AroundI(Pow2(k)) : k \in Ks } : InUint(W, x) }
 Pool(t) == IF t = "int" THEN IntPool ELSE UintPool
 Expected(t, o, x, y) == IF o = "neg" THEN (IF t = "int" THEN IntNeg(W, x) ELSE UintNeg(W, x))
+                        ELSE IF o = "negneg" THEN        \* - - x: two negations, each of them checked (no cancelling)
+                             (IF t = "uint" THEN Err ELSE LET n == IntNeg(W, x) IN IF n = Err THEN Err ELSE IntNeg(W, BigOf(n)))
                         ELSE IF t = "int" THEN IntOp(W, o, x, y) ELSE UintOp(W, o, x, y)
 
 Init == /\ ty \in {"int", "uint"} /\ a \in Pool(ty) /\ op = "neg" /\ b = Z /\ exp = Expected(ty, "neg", a, Z)
-Next == /\ op = "neg" /\ op' \in BinOps /\ b' \in Pool(ty) /\ UNCHANGED <<ty, a>>
-        /\ exp' = Expected(ty, op', a, b')
+Next == \/ /\ op = "neg" /\ op' \in BinOps /\ b' \in Pool(ty) /\ UNCHANGED <<ty, a>>
+           /\ exp' = Expected(ty, op', a, b')
+        \/ /\ op = "neg" /\ op' = "negneg" /\ b' = Z /\ UNCHANGED <<ty, a>>
+           /\ exp' = Expected(ty, "negneg", a, Z)
 Spec == Init /\ [][Next]_vars
 
 ----------------------------------------------------------------------------
@@ -44,6 +48,7 @@ DivLaw == (op \in {"/", "%"} /\ ~IsZero(b)) =>
 Commute == op \in {"+", "*"} => Expected(ty, op, a, b) = Expected(ty, op, b, a)
 SubIsAddNeg == (op = "-" /\ ty = "int" /\ Cmp(b, IntMin(W)) # 0) => Expected(ty, "-", a, b) = Expected(ty, "+", a, Neg(b))
 NegLaw == (op = "neg" /\ ty = "int") => (exp = Err <=> Cmp(a, IntMin(W)) = 0)
+NegNegLaw == (op = "negneg" /\ ty = "int") => (IF Cmp(a, IntMin(W)) = 0 THEN exp = Err ELSE exp = IntV(a))
 UintNegIsError == (op = "neg" /\ ty = "uint") => exp = Err
 
 \* native cross-check (only meaningful in MODE "small", where everything fits TLC's integers)
@@ -55,7 +60,7 @@ Native(o, x, y) == CASE o = "+" -> x + y [] o = "-" -> x - y [] o = "*" -> x * y
                      [] o = "neg" -> -x
 NLo == IF ty = "int" THEN -(2^(W-1)) ELSE 0
 NHi == IF ty = "int" THEN 2^(W-1) - 1 ELSE 2^W - 1
-NativeAgrees == MODE = "small" =>
+NativeAgrees == (MODE = "small" /\ op # "negneg") =>
    LET x == ToInt(a) y == ToInt(b) IN
    IF (op \in {"/", "%"} /\ y = 0) \/ (op = "neg" /\ ty = "uint") THEN exp = Err
    ELSE LET n == Native(op, x, y) IN
